@@ -74,7 +74,7 @@ def _version_of(vc, name):
 @harness('Q1', targets='kopf._core.reactor.queueing.worker', props=['C01', 'C07', 'C03'],
          clauses=['idle_exit_leaves_no_event', 'got_item_processed_next', 'order_invariant', 'frame_streams',
                   'consistency_bookkeeping', 'no_retire_before_consistency_deadline', 'processor_gets_current_expectation',
-                  'pressure_tells_pending_events'],
+                  'pressure_tells_pending_events', 'hopeless_wait_not_repeated'],
          canaries=['canary.never_idle_exit', 'canary.queue_empty_when_timeout_fires'],
          native_replays={'idle_exit_leaves_no_event': 'drivers/q1_idle_race.py', 'order_invariant': 'drivers/q1_idle_race.py',
                          'got_item_processed_next': 'drivers/q1_idle_race.py'},
@@ -161,6 +161,30 @@ def Q1(vc):
                 G.gets_after_del += 1
             return Opaque('get-coroutine', close=lambda: None)
 
+        def get_nowait(self):
+            if G.deleted:
+                G.gets_after_del += 1
+            if vc_len(G.content) == 0:
+                raise asyncio.QueueEmpty()
+            G.took_after_timeout = True
+            G.exit_kind = None
+            return take_head()
+
+    def take_head():
+        head = G.content[0]
+        if sym:
+            G.content = SSeq(z3.SubSeq(G.content.term, 1, z3.Length(G.content.term) - 1), 'int')
+        else:
+            G.content = G.content[1:]
+        G.inflight = head
+        if vc.nondet(2, 'item is EOS?') == 1:
+            G.inflight = None
+            G.got_eos = True
+            return queueing.EOS.token
+        ev = {'type': 'MODIFIED', 'object': {'metadata': {'resourceVersion': _version_of(vc, 'event.version')}}}
+        G.event, G.event_id = ev, head
+        return ev
+
     backlog = Queue()
     pressure = StubEvent('pressure')
     vc.assume(Implies(vc_len(G.content) > 0, pressure.is_set()),
@@ -182,24 +206,16 @@ def Q1(vc):
         k = vc.nondet(3, 'wait_for outcome: item / timeout / cancelled')
         if k == 0:
             vc.assume(vc_len(G.content) >= 1, 'an item was available')
-            head = G.content[0]
-            if sym:
-                G.content = SSeq(z3.SubSeq(G.content.term, 1, z3.Length(G.content.term) - 1), 'int')
-            else:
-                G.content = G.content[1:]
-            G.inflight = head
-            if vc.nondet(2, 'item is EOS?') == 1:
-                G.inflight = None
-                G.got_eos = True
-                return queueing.EOS.token
-            ev = {'type': 'MODIFIED', 'object': {'metadata': {'resourceVersion': _version_of(vc, 'event.version')}}}
-            G.event, G.event_id = ev, head
-            return ev
+            vc.assume(timeout > 0, 'asyncio.wait_for(<fresh coroutine>, timeout <= 0) cancels the getter before its first step: '
+                                   'it never returns an item, however full the queue is')
+            return take_head()
         if k == 1:
             vc.assume(clock.now >= t0 + timeout, 'wait_for: TimeoutError not before the timeout')
             vc.canary('canary.queue_empty_when_timeout_fires', vc_len(G.content) == 0)
             G.exit_kind = 'idle-timeout'
             G.timeout_fired_at = clock.now
+            G.timed_out = Opaque('timeout', hopeless=(timeout <= 0), pending=(vc_len(G.content) > 0))
+            G.took_after_timeout = False
             raise asyncio.TimeoutError()
         G.exit_kind = 'cancelled'
         raise asyncio.CancelledError()
@@ -256,6 +272,7 @@ def Q1(vc):
         ct = vc.real('consistency_time') if armed else None
         current.ev, current.ct = ev, ct
         G.susp_since_empty_check = True
+        G.timed_out = None
         return {'consistency_time': ct, 'expected_version': ev, 'shouldstop': False}
 
     def invariant(loc):
@@ -263,6 +280,11 @@ def Q1(vc):
         inv = And(order_ok(), key in streams and streams[key].backlog is backlog, (ev is None) == (ct is None),
                   G.inflight is None, not G.deleted, loc.get('shouldstop') is False,
                   Implies(vc_len(G.content) > 0, pressure.is_set()))      # pending events keep the pressure up
+        if not state.first and getattr(G, 'timed_out', None) is not None:
+            # a wait that could not succeed (time-out <= 0: settings.queueing.idle_timeout = 0 with no consistency deadline
+            # ahead) on a filled backlog must not simply be repeated -- the next one cannot succeed either, and the object's
+            # events would never be processed (C01 "none is dropped", C03): the pending event is taken some other way
+            vc.ensure('hopeless_wait_not_repeated', Implies(And(G.timed_out.hopeless, G.timed_out.pending), G.took_after_timeout))
         if not state.first:
             # ---- back edge: the bookkeeping of this iteration (Q4)
             if G.exit_kind is None and getattr(G, 'event', None) is not None and hasattr(G, 'returned_version'):
